@@ -223,6 +223,144 @@ def explore_sensors(case):
     return res
 
 
+def explore_node_outputs(case):
+    """the estimator node raises on ANY NaN output of a step function (uros.check_nan), rejected corrections included: every output of
+    correct_mag / correct_accel / predict must be finite over the C11 input lattice (incl. fields at and next to the vertical)"""
+    from . import c11
+    tier, seed, part, nparts = case["tier"], case["seed"], case["part"], case["nparts"]
+    res = core.Result()
+    axs = alpha.axes(seed)
+    states = list(c11.mrp_ball(seed, tier))
+    # body z axis at and next to the (horizontal) magnetic north direction: the cell where the yaw measurement degenerates
+    for dlt in (0.0, 0.002, -0.004, 0.02, 0.3):
+        for yaw in (0.0, 1.0):
+            states.append(ref.mrp_of(ref.logm_rot(ref.rot(np.array([0, math.pi / 2 + dlt, 0])) @ ref.Rz(yaw))))
+    for r in states[part::nparts]:
+        R = ref.R_from_mrp(r)
+        x = np.concatenate([r, [0.05, -0.02, 0.07]])
+        for wname, W in c11.WS.items():
+            ys = [c11.sens_mag(R, 0.0, 0.3, 0.1), R.T @ np.array([0, 0, 0.1]), R.T @ np.array([1e-4, 0, 0.1]), R.T @ np.array([0, 2e-4, -0.1]), np.zeros(3)]
+            for ang in (1e-3, 2e-3, 4e-3, 0.02, 0.3):
+                ys.append(R.T @ (ref.rot(axs[3] * ang) @ np.array([0, 0, 0.1])))
+            for y in ys:
+                res.count("evaluations")
+                res.nontrivial.add(hash((x.tobytes(), wname, y.tobytes())))
+                o = c11.eqs()["correct_mag"](x, c11.Wdm(W), y, 0.0, c11.STD_MAG, c11.BETA_MAG)
+                vals = np.concatenate([np.array(v, dtype=float).reshape(-1) for v in o])
+                res.outcomes.add(hash(np.round(vals[:6], 8).tobytes()))
+                if not np.all(np.isfinite(vals)) and float(np.linalg.norm(y)) > 0:
+                    res.fail(site="mrp.correct_mag", clause="every_output_finite_for_the_node", cls="W=" + wname,
+                             detail=dict(x=x, y=y, nonfinite=int(np.sum(~np.isfinite(vals)))), sub="node", case=case)
+            for y in [c11.sens_accel(R), c11.sens_accel(R, 5.0), c11.sens_accel(R @ ref.rot(axs[3] * 3.0)), -c11.sens_accel(R)]:
+                res.count("evaluations")
+                o = c11.eqs()["correct_accel"](x, c11.Wdm(W), y, c11.G0, np.zeros(3), c11.STD_ACC, c11.STD_ACC_OM, c11.BETA_ACC)
+                vals = np.concatenate([np.array(v, dtype=float).reshape(-1) for v in o])
+                if not np.all(np.isfinite(vals)):
+                    res.fail(site="mrp.correct_accel", clause="every_output_finite_for_the_node", cls="W=" + wname,
+                             detail=dict(x=x, y=y, nonfinite=int(np.sum(~np.isfinite(vals)))), sub="node", case=case)
+    res.samples.append(dict(node_output_states=len(c11.mrp_ball(seed, tier)[part::nparts])))
+    return res
+
+
+def explore_predict_every_imu(case):
+    """mechanism of C12: the node predicts on every IMU message that advances time (all (sensor, dt) words, real node with spies)"""
+    from . import c20
+    tier, first = case["tier"], case["first"]
+    res = core.Result()
+    import itertools as it
+    evs = [(s, d) for s in ("imu", "mag") for d in c20.DTS]
+    depth = 4 if tier == "thorough" else 3
+    for d in range(1, depth + 1):
+        for tail in it.product(evs, repeat=d - 1):
+            word = (evs[first],) + tail
+            res.count("evaluations")
+            res.count("states", len(word))
+            res.count("transitions", len(word))
+            res.nontrivial.add(hash(word))
+            log = c20.run_est(False, (5e-3, 5e-3), word)
+            t_last = 0.0
+            for sensor, t, calls, preds in log:
+                if sensor != "imu":
+                    continue
+                dt = t - t_last
+                t_last = t
+                res.outcomes.add(hash((round(dt, 6), tuple(calls))))
+                if dt > 0 and "predict" not in calls:
+                    res.fail(site="AttitudeEstimator", clause="predicts_on_every_imu_message_that_advances_time", cls="dt=%g" % round(dt, 6),
+                             detail=dict(word=[list(w) for w in word], t=t, dt=dt), sub="everyimu", case=case)
+    return res
+
+
+def explore_history_independence(case):
+    """launch_sim must depend only on the parameters it is given: the same run before and after a run with other settings"""
+    res = core.Result()
+    B = dict(x0=[0.1, 0.2, 0.3, 0.07, 0.02, -0.07], initialize=True, decl=0.0, incl=0.0, rates="default", tf=1.0)
+    A = dict(x0=[0.0, 0.0, 0.0, 0.0, 0.0, 0.0], initialize=False, decl=0.3, incl=1.0, rates="slow", tf=0.5)
+    L = launch()
+
+    def minimal(cfg):
+        # only the keys that differ from the defaults are passed, as a user would
+        p = {"tf": cfg["tf"], "initialize": cfg["initialize"], "estimators": ["mrp"], "x0": np.array(cfg["x0"], dtype=float), "params": {"sim/enable_noise": False}}
+        if cfg["incl"]:
+            p["params"]["sim/mag_incl"] = cfg["incl"]
+        if cfg["decl"]:
+            p["params"].update({"sim/mag_decl": cfg["decl"], "mrp/mag_decl": cfg["decl"]})
+        p["params"].update(RATES[cfg["rates"]])
+        with contextlib.redirect_stdout(io.StringIO()):
+            return L.launch_sim(p)
+    try:
+        d1 = minimal(B)
+        minimal(A)
+        d2 = minimal(B)
+    except Exception as ex:
+        res.count("evaluations")
+        res.fail(site="launch_sim", clause="no_exception", cls="history", detail=dict(error="%s: %s" % (type(ex).__name__, str(ex)[:300])), sub="history", case=case)
+        return res
+    res.count("evaluations", 3)
+    res.nontrivial.add(1)
+    res.nontrivial.add(2)
+    res.count("states", len(d1["time"]))
+    res.count("transitions", len(d1["time"]))
+    same = len(d1) == len(d2) and all(np.array_equal(np.nan_to_num(np.asarray(d1[k][f]), nan=-777.0), np.nan_to_num(np.asarray(d2[k][f]), nan=-777.0))
+                                     for k in ("sim_attitude", "mrp_attitude", "imu", "mag") for f in d1[k].dtype.names)
+    if not same:
+        res.fail(site="launch_sim", clause="run_depends_only_on_its_own_parameters", cls="history",
+                 detail=dict(first_rows=int(len(d1)), again_rows=int(len(d2)), mag0=np.asarray(d1["mag"]["mag"][1]).tolist(), mag0_again=np.asarray(d2["mag"]["mag"][1]).tolist()),
+                 sub="history", case=case)
+    res.samples.append(dict(history_independence=True))
+    return res
+
+
+class _Node:
+    chunks = 1
+
+    def cases(self, tier, seed):
+        return [dict(sub="node", tier=tier, seed=seed, part=p, nparts=4) for p in range(4)]
+
+    def run(self, case):
+        return explore_node_outputs(case)
+
+
+class _Every:
+    chunks = 1
+
+    def cases(self, tier, seed):
+        return [dict(sub="everyimu", tier=tier, first=f) for f in range(16)]
+
+    def run(self, case):
+        return explore_predict_every_imu(case)
+
+
+class _Hist:
+    chunks = 1
+
+    def cases(self, tier, seed):
+        return [dict(sub="history", tier=tier)]
+
+    def run(self, case):
+        return explore_history_independence(case)
+
+
 class _Loop:
     chunks = 1
 
@@ -260,5 +398,7 @@ class _Sens:
         return explore_sensors(case)
 
 
-SUBCHECKS = {"sensors": _Sens(), "loop": _Loop(), "sched": _Sched()}
-REPLAY = {"sensors": lambda c: explore_sensors(c).fails, "loop": lambda c: explore_loop(c).fails, "sched": lambda c: explore_sched(c).fails}
+SUBCHECKS = {"sensors": _Sens(), "node": _Node(), "everyimu": _Every(), "history": _Hist(), "loop": _Loop(), "sched": _Sched()}
+REPLAY = {"sensors": lambda c: explore_sensors(c).fails, "loop": lambda c: explore_loop(c).fails, "sched": lambda c: explore_sched(c).fails,
+          "node": lambda c: explore_node_outputs(c).fails, "everyimu": lambda c: explore_predict_every_imu(c).fails,
+          "history": lambda c: explore_history_independence(c).fails}
